@@ -8,6 +8,7 @@ import Nlmodel.Proofs.Lemmas.ResolveTop
 import Nlmodel.Proofs.Lemmas.ResolveCtl
 import Nlmodel.Proofs.Lemmas.SpecMono
 import Nlmodel.Proofs.Lemmas.SimFnValidate
+import Nlmodel.Proofs.Lemmas.SimHValidate
 namespace Nl
 namespace C01
 
@@ -204,6 +205,44 @@ theorem C01_function_source_program (ast : Block) (r : RBlock) (bc : Bytecode) (
     | .ret _ _ => False
     | _ => True :=
   SimF.fn_source_program ast r bc hc hin F
+
+/-- FORWARD SIMULATION, stage 5 (HEAP VALUES at top level): floats (boxed on the machine, immediate in
+    the semantics), strings and arrays (shared by reference on both sides, related by an injective
+    address map that grows with every allocation), string constants copied on evaluation, indexing
+    and index assignment with aliasing, all 13 operators on all value kinds with boxing of results,
+    all seven builtins including `print` (deep view with cycles), global variables and structured
+    control flow.  Six statements proved together for every fuel (`SimH.PAll5`).  The invariant
+    (`SimH.Inv5`) relates the store of the semantics to the machine heap cell by cell and the printed
+    output line by line; a failure is matched by a failure of the same kind AFTER THE SAME OUTPUT. -/
+theorem C01_heap_simulation (s0 : VM) (CS : List Const) (C : Code) (f : Nat) : SimH.PAll5 s0 CS C f := SimH.pall5 f
+
+/-- END TO END FROM SOURCE TREES, stage 5, by validation (`SimH.inFragmentH` is decidable and proved
+    sound): the run halts with a value whose deep view — what `eval` hands back and what the checks
+    compare — is the deep view of the definitional result, after exactly the definitional output; a
+    definitional error is the machine's error, after exactly the same output. -/
+theorem C01_heap_source_program (ast : Block) (r : RBlock) (bc : Bytecode) (hc : compileProgram ast = .ok (r, bc))
+    (hin : SimH.inFragmentH r = true) (F : Nat) :
+    match Spec.evalB F r {} with
+    | .val () st' => ∃ mv n s', (∀ k, runSteps bc.code (n + k) (VM.start {} bc) = .value mv s') ∧
+        s'.mem.heap.tree treeDepth [] mv = st'.tree treeDepth [] st'.last ∧ s'.out = st'.out
+    | .err er ste => ∃ n s', (∀ k, runSteps bc.code (n + k) (VM.start {} bc) = .error er s') ∧ s'.out = ste.out
+    | .brk _ => False
+    | .cont _ => False
+    | .ret _ _ => False
+    | _ => True :=
+  SimH.heap_source_program ast r bc hc hin F
+
+/-- `stel a = [1.5, "x"]; stel b = a; b[0] = a; print(a, lengte(a)); zolang lengte(a) < 1 { stop }; a[1][0] + "y"` -/
+def heapAst : Block :=
+  .cons (.letS "a".toList (.arr (.cons (.float 0x3FF8000000000000) (.cons (.str "x".toList) .nil))))
+  (.cons (.letS "b".toList (.ident "a".toList))
+  (.cons (.expr (.assign (.index (.ident "b".toList) (.int 0)) (.ident "a".toList)))
+  (.cons (.expr (.call (.ident "print".toList) (.cons (.ident "a".toList) (.cons (.call (.ident "lengte".toList) (.cons (.ident "a".toList) .nil)) .nil))))
+  (.cons (.expr (.whileE (.infix (.call (.ident "lengte".toList) (.cons (.ident "a".toList) .nil)) .lt (.int 1)) (.cons .brk .nil)))
+  (.cons (.expr (.infix (.index (.index (.ident "a".toList) (.int 1)) (.int 0)) .add (.str "y".toList))) .nil)))))
+
+/-- non-vacuity: that program (a cyclic array, aliasing, print, a loop) passes the validation -/
+example : (match compileProgram heapAst with | .ok (r, _) => SimH.inFragmentH r | .error _ => false) = true := by decide
 
 /-- `functie fac(n) { als n < 2 { antwoord 1 }; n * fac(n - 1) }; fac(5)` -/
 def facAst : Block :=
